@@ -462,12 +462,15 @@ class EditCollection(AbstractCompoundEdit, Generic[C]):
         return None
 
     def edits(self) -> Iterator[Edit]:
-        yield from iter(self._sub_edits)
+        num_yielded = 0
         while True:
-            next_edit = self._expand_edits()
-            if next_edit is None:
+            # Sub-edits can also be expanded by tighten_bounds() or by another listing while this generator is suspended,
+            # so always continue from what has been yielded so far rather than from what this generator expanded itself
+            for sub_edit in itertools.islice(self._sub_edits, num_yielded, None):
+                num_yielded += 1
+                yield sub_edit
+            if self._expand_edits() is None and num_yielded >= len(self._sub_edits):
                 break
-            yield next_edit
 
     def _is_tightened(self, starting_bounds: Range) -> bool:
         return not self.valid or self.bounds().lower_bound > starting_bounds.lower_bound or \
